@@ -4,4 +4,4 @@ id=$1; prop=$2; w=$3; pkg=$4; args=$5; src=${6:-seed/_demo/seed_demo_test.go}
 cd /verif
 SEEDW=$w tools/intake_seed.sh $id $src $pkg/seed_demo_test.go "$args" 2>&1 | tail -1
 echo "{\"property\":\"$prop\",\"run_checks\":[\"$prop\"]}" > seeded/$id/meta.json
-tools/selftest.sh seeded $id | grep "^seeded-" | cut -c1-400
+SELFTEST_RES=/tmp/selftest-$id.txt tools/selftest.sh seeded $id | grep "^seeded-" | cut -c1-400
